@@ -48,6 +48,12 @@ def gen_cases(tier, seed):
             yield {"prop": PROP, "id": "c%d" % n, "batch": batch, "kind": "corpus", "example": top, "entry": entry,
                    "same_seed": same, "shortcut": r % 3 == 2, "env": pipeline.gen_env(rng, batch, 4, same_seed=same)}
             n += 1
+    # entry names with dots, spaces and other odd characters (the output path is derived from the input path twice)
+    for i, name in enumerate(["shapes.v2.ms", "a.b.c.ms", "x.transpiled.ms", "my prog.ms", "a#b.ms", "é.ms", "d.ms", "UPPER.ms"]):
+        rng = Rng(derive(seed, PROP, "name", i))
+        yield {"prop": PROP, "id": "n%d" % n, "batch": "fault_free", "kind": "string", "s": "plain", "raw": False, "form": 2, "entry": name,
+               "same_seed": True, "shortcut": False, "env": pipeline.gen_env(rng, "fault_free", 4, same_seed=True)}
+        n += 1
     maxlen = 3 if quick else 4
     k = 0
     for s in pipeline.all_strings(maxlen):
